@@ -178,6 +178,7 @@ func (s *Session) RunTree(ast []node.Type, discard bool, maxSteps int) (res Res)
 
 func (s *Session) runTree(ast []node.Type, discard bool, maxSteps int, res *Res) {
 	steps := 0
+	res.Val = ref.Nil{} // text without a statement has no value
 	vm.VerifStep = func() {
 		steps++
 		if maxSteps > 0 && steps > maxSteps {
